@@ -255,8 +255,7 @@ class C16(Check):
         "inet_pton(AF_INET6, s) = bytes b  =>  len(b) = 16, '/' not in s, ':' in s, inet_pton(inet_ntop(b)) = b "
         "(checked for every table entry of every case against libc)",
         "CPython int() refuses more than 4300 digits with ValueError (modelled)",
-        "inputs are str with code points < 256 in the model runs; strings with other code points are exercised "
-        "directly (extra checks) for the total clause only",
+        "strings are sequences of arbitrary code points (non-Latin-1 text reaches the model as code-point lists)",
     ]
 
     def __init__(self):
@@ -310,6 +309,12 @@ class C16(Check):
                               "::ffff:1.2.3.4\x00", "1.2.3.4\x00", "", "/", "::/", "/64", "::ffff:1.2.3.4/120",
                               "::ffff:01.2.3.4", "::ffff:1.2.3.256", "1.2.3.4/8/8", "1:2:3:4:5:6:7:8:9", ":::", "1::2::3"):
                         yield self.mk(fam, fn, raise_, s, "::1/64", tag="witness")
+        # strings outside Latin-1 (lone surrogate, non-ASCII digits and letters): through the model like any other case
+        for st in NON_LATIN1:
+            for fam in FNS:
+                for fn in FNS[fam]:
+                    for raise_ in (False, True):
+                        yield self.mk(fam, fn, raise_, st, st, tag="non-latin1")
         # non-ASCII decimal digits in every numeric position: malformed for every module
         ub = {"v4": ["192.168.0.1/24", "10.0.0.255/8", "1.2.3.4"],
               "ip": ["192.168.0.1/24", "1.2.3.4", "2001:db8::1/64", "::ffff:1.2.3.4", "::ffff:1.2.3.4/120"],
@@ -565,21 +570,6 @@ class C16(Check):
     def extra_checks(self, tier, rng, report):
         report["hist"] = dict(self._hist)
         n = 0
-        for s in NON_LATIN1:
-            for fam in FNS:
-                for fn in FNS[fam]:
-                    for raise_ in (False, True):
-                        c = {"fam": fam, "fn": fn, "raise": raise_, "s1": s, "s2": s, "mc": "upper", "md": ":"}
-                        r = self.call(self.fcall(c), s)
-                        n += 1
-                        want = (1, "ValueError") if raise_ else (0, s)
-                        if r != want:
-                            case = {"_extra": True, "fam": fam, "fn": fn, "raise": raise_,
-                                    "s": s.encode("unicode_escape").decode()}
-                            report.setdefault("extra_failing", []).append(
-                                (case, ["total_malformed_unchanged_or_valueerror"],
-                                 [r[0], r[1].encode("unicode_escape").decode()],
-                                 [want[0], want[1].encode("unicode_escape").decode()]))
         # the oracle facts assumed by the theorems, on random and boundary addresses, directly against libc
         bad = 0
         for _ in range(2000 if tier == "quick" else 20000):
@@ -587,8 +577,7 @@ class C16(Check):
             t = ntop6(b)
             if socket.inet_pton(socket.AF_INET6, t) != b or "/" in t or ":" not in t:
                 bad += 1
-        report["extra"]["non_latin1_total_checks"] = n
-        report["extra"]["oracle_roundtrip_failures"] = bad
+                report["extra"]["oracle_roundtrip_failures"] = bad
         if bad:
             report.setdefault("extra_failing", []).append(
                 ({"_extra": True, "what": "inet_pton(inet_ntop(b)) != b"}, ["oracle_roundtrip"], bad, 0))
